@@ -1,7 +1,7 @@
 #!/bin/sh
 # Re-confirm every seeded defect against the current /repo HEAD and the current checks (quick tier).
 # usage: engine/seedall.sh [--suite] [name ...]     (names like C06-4; default: all of seeded/)
-# Commit evidence/ first: seedtest restores evidence/ from git after every run.
+# Runs against scratch trees write their evidence under build/other-tree/, not evidence/.
 cd "$(dirname "$0")/.." || exit 2
 suite="--no-suite"
 [ "$1" = "--suite" ] && { suite=""; shift; }
